@@ -4,6 +4,7 @@ use std::cmp;
 use vstd::std_specs::cmp::*;
 verus! {
 //@ include prelude/numeric_id.vs
+broadcast use {nid::ax_id_eq, nid::ax_id_cmp, nid::ax_id_obeys_eq, nid::ax_id_obeys_cmp, nid::ax_id_obeys_partial_cmp, nid::ax_id_partial_cmp};
 
 
 //@ include units/uf/spec.vs
